@@ -29,6 +29,13 @@ Definition step_ok (c : daconst) (p : dastate) (a : R) (tie : nat) (o : dastate)
   close (step n) (step o) ts /\ close (esum n) (esum o) te /\ close (lavg n) (lavg o) tl
   /\ mu n = mu o.
 
+(* one da_step call whose floating-point step size overflowed to +inf: the model's (real) step size
+   exceeds the largest finite float [maxf]; the other fields are finite and compared as usual
+   (the step field of [o] is a placeholder) *)
+Definition over_ok (c : daconst) (p : dastate) (a : R) (tie : nat) (o : dastate) (maxf te tl : R) : Prop :=
+  let n := da_step c p a tie in
+  maxf < step n /\ close (esum n) (esum o) te /\ close (lavg n) (lavg o) tl /\ mu n = mu o.
+
 (* da_finalize on the (observed) state [p]: only the step size changes *)
 Definition fin_ok (p o : dastate) (ts : R) : Prop :=
   let n := da_finalize p in
@@ -100,7 +107,7 @@ Definition ktraj (k : kernel) (c : daconst) (ety : etype) (s : R) (accs : list R
 Ltac da_unfold :=
   cbv beta iota zeta delta
     [close traj final ktraj ks_of mk ks
-     init_ok step_ok fin_ok scratch_ok trans_agrees first_agrees close_epoch enter
+     init_ok step_ok over_ok fin_ok scratch_ok trans_agrees first_agrees close_epoch enter
      da_steps da_step da_init da_finalize da_epoch da_eta
      step esum lavg mu c_delta c_gamma c_kappa c_t0
      da rest transitions transition adaptive_transition standard_transition
